@@ -285,7 +285,10 @@ func predicates(client *resolve.LocalClient, g *resolve.Graph, st *modelStats) (
 		}
 		if prev, ok := ver[k]; ok && prev != to.Version {
 			note := ""
-			if len(nodeKeys[e.To]) > 1 || len(nodeKeys[firstNode[k]]) > 1 {
+			// the recorded finding: the node that keeps the superseded version is
+			// the one shared with another type or classifier (a soft declaration
+			// reused it); a shared node on the *new* version's side is something else
+			if len(nodeKeys[firstNode[k]]) > 1 {
 				note = " " + sharedNodeNote
 			}
 			return fmt.Sprintf("artifact %v appears with versions %s and %s%s", k, prev, to.Version, note), "at most one version per artifact", nil
@@ -415,19 +418,21 @@ func predicates(client *resolve.LocalClient, g *resolve.Graph, st *modelStats) (
 				// losing nodes): a requirement of a version outside the graph that
 				// rules the expected version out, or that names the selected one,
 				// explains the difference.
-				inGraph := map[resolve.VersionKey]bool{}
-				for _, n := range g.Nodes {
-					inGraph[n.Version] = true
+				// (also a requirement of a version in the graph that ended in a node
+				// error instead of an edge)
+				onEdge := map[string]bool{}
+				for _, r := range reqs {
+					onEdge[r] = true
 				}
 				explained := false
 				for pk, vs := range client.PackageVersions {
 					for _, v := range vs {
-						if inGraph[v.VersionKey] || explained {
+						if explained {
 							continue
 						}
 						rs, _ := client.Requirements(context.Background(), v.VersionKey)
 						for _, r := range rs {
-							if artOf(r) != k {
+							if artOf(r) != k || onEdge[r.Version] {
 								continue
 							}
 							if isRange(r.Version) {
@@ -554,7 +559,7 @@ func knownClass(u gen.Universe, obs string) string {
 	return ""
 }
 
-const sharedNodeNote = "(one of the two nodes is also reached under another type or classifier of the artifact)"
+const sharedNodeNote = "(the node of the first version is also reached under another type or classifier of the artifact)"
 
 func prop(noRanges bool) func(*rapid.T) {
 	return func(t *rapid.T) {
